@@ -4430,6 +4430,8 @@ def gen_conv_tofloat():
         for t in toks:
             if t in ("num_digits", "den_digits", "precision", "+", "-", "(", ")", "<", ">"):
                 out.append(t)
+            elif t == "need_digits":      # round 6: `let need_digits = precision.saturating_add(den_digits);`
+                out.append("(to_float_need_digits den_digits precision)")
             elif t == ">=":
                 out.append("≥")
             elif t == "<=":
@@ -4441,6 +4443,10 @@ def gen_conv_tofloat():
     one(r"assert!\(precision\s*>\s*0\)\s*;", "precision assertion")
     one(r"let\s+num_digits\s*=\s*self\.numerator\.ilog\(&base\)\s*;", "numerator digit count")
     one(r"let\s+den_digits\s*=\s*self\.denominator\.ilog\(&base\)\s*;", "denominator digit count")
+    # round 6 (/repo 43925c0): the sum saturates at usize::MAX instead of overflowing
+    need_a, need_b = one(r"let\s+need_digits\s*=\s*(precision|den_digits)\.saturating_add\((precision|den_digits)\)\s*;", "saturating digit sum")
+    if need_a == need_b:
+        raise ExtractError("%s to_float: need_digits adds %s to itself" % (rel, need_a))
     cond = one(r"let\s+\(q,\s*r\)\s*=\s*if\s+([^{}]+?)\s*\{\s*shift\s*=\s*0\s*;", "no-shift test")
     shift = one(r"\}\s*else\s*\{\s*shift\s*=\s*([^;{}]+?)\s*;\s*if\s+B\s*==\s*2\s*\{", "shift amount")
     one(r"\(&self\.numerator\s*<<\s*shift\)\.div_rem\(&self\.denominator\)", "binary shift")
@@ -4458,14 +4464,17 @@ def gen_conv_tofloat():
     l_add = src.count("\n", 0, fpos + m.start()) + 1
     out = ["/-! GENERATED by vlib/extract.py from /repo — do not edit.  Decision logic of `Repr::to_float` (C06). -/",
            "namespace Dashu.Gen.ConvToFloat", "",
+           "/-- `let need_digits = %s.saturating_add(%s);` (`usize`, 64-bit target: saturates at `usize::MAX`) -/" % (need_a, need_b),
+           "def to_float_need_digits (den_digits precision : Nat) : Nat := min (%s + %s) (2 ^ 64 - 1)" % (need_a, need_b), "",
            "/-- `if %s { shift = 0; … }` (%s:%d) -/" % (cond, rel, l_add),
            "def to_float_no_shift (num_digits den_digits precision : Nat) : Bool := decide (%s)" % tr(cond), "",
            "/-- `shift = %s;` (usize subtraction, guarded by the test above) -/" % shift,
            "def to_float_shift (num_digits den_digits precision : Nat) : Nat := %s" % tr(shift), "",
            "/-- `assert!(precision > 0)` as the harness prints it -/",
            "def to_float_assert_site : String := \"%s:%d|assertion_failed:_precision_>_0\"" % (rel, l_assert), "",
-           "/-- debug-build overflow check of `precision + den_digits` -/",
-           "def to_float_add_site : String := \"%s:%d|attempt_to_add_with_overflow\"" % (rel, l_add), ""]
+           ""][:-1]        # (round 6: the `usize` addition that could overflow is gone, and with it `to_float_add_site`)
+    if re.search(r"precision\s*\+\s*den_digits|den_digits\s*\+\s*precision", nc):
+        raise ExtractError("%s to_float: an unsaturated `precision + den_digits` is back" % rel)
     # `From<Repr> for FBig<R, B>`: the whole body, whitespace-normalised (the mirrored `fbigFromRat` documents this text;
     # `Props.C06.fbig_from_rbig_source_shape` compares), and the forwarding of RBig / Relaxed to it
     mi = re.search(r"impl<R: Round, const B: Word> From<Repr> for FBig<R, B>\s*\{", src)
@@ -4588,6 +4597,21 @@ def gen_bitops_heap():
 
 
 FILES["BitOpsHeap.lean"] = gen_bitops_heap        # C09: bits.rs word loops of & | ^ and_not (additive)
+
+
+def gen_repr_ones():
+    """C09 (Tie A): `Repr::ones` of integer/src/repr.rs in full (inline arms, heap arm with `push_repeat::<{ Word::MAX }>`, the
+    conditional top word and the `transmute` into the heap value) with the translator of vlib/extract_shiftheap.py.
+    `Props/GenReprOnes.lean` proves it equal to the hand model's `reprOnes` for every usize argument."""
+    import importlib.util, sys
+    spec = importlib.util.spec_from_file_location("vlib_extract_shiftheap",
+                                                  os.path.join(os.path.dirname(os.path.abspath(__file__)), "extract_shiftheap.py"))
+    mod = importlib.util.module_from_spec(spec)
+    spec.loader.exec_module(mod)
+    return mod.generate_ones(sys.modules[__name__])
+
+
+FILES["ReprOnes.lean"] = gen_repr_ones            # C09: Repr::ones in full (additive)
 
 def gen_float_norm():
     """C05 (Tie A): `Repr::<B>::normalize` of float/src/repr.rs through the typed translator after three checked
@@ -5023,6 +5047,12 @@ MUTATIONS = [
      "is_power_of_two (heap arm) does not look at the low words (round-3 mutant m08's class; Props/GenScans.gen_is_power_of_two_large)"),
     ("M160", "integer/src/bits.rs", r"RefLarge\(words\) => words\.iter\(\)\.map\(\|w\| w\.count_ones\(\) as usize\)\.sum\(\),", "RefLarge(words) => words.iter().map(|w| w.count_zeros() as usize).sum(),",
      "count_ones (heap arm) counts zero bits (Props/GenScans.gen_count_ones_large)"),
+    ("M161", "integer/src/repr.rs", r"if hi_bits > 0 \{\n(\s*)buffer\.push\(ones_word\(hi_bits as _\)\);", "if hi_bits > 1 {\n\\1buffer.push(ones_word(hi_bits as _));",
+     "Repr::ones (heap arm) drops the top word when n = 1 mod WORD_BITS (Props/GenReprOnes.gen_repr_ones)"),
+    ("M162", "integer/src/repr.rs", r"buffer\.push_repeat::<\{ Word::MAX \}>\(lo_words\);", "buffer.push_repeat::<{ Word::MAX }>(lo_words - 1);",
+     "Repr::ones (heap arm) pushes one all-ones word too few (Props/GenReprOnes.gen_repr_ones)"),
+    ("M163", "integer/src/repr.rs", r"unsafe \{ mem::transmute\(buffer\) \}\n(\s*)\}\n(\s*)\}\n\n(\s*)/// Flip the sign bit", "unsafe { mem::transmute::<Buffer, Repr>(buffer) }\n\\1}\n\\2}\n\n\\3/// Flip the sign bit",
+     "Repr::ones: the transmute is written in another form (outside the recognised text: fails closed)"),
     # C01 operator dispatch (Gen/IntDispatch.lean, vlib/extract_intdispatch.py)
     ("M48", "integer/src/add_ops.rs", r"\(RefLarge\(words0\), Large\(buffer1\)\) => sub_large\(buffer1, words0\)\.neg\(\),", "(RefLarge(words0), Large(buffer1)) => sub_large(buffer1, words0),",
      "drop the `.neg()` of the large/large arm of `SubSigned<TypedRepr> for TypedReprRef`"),
